@@ -35,11 +35,35 @@ type c07Conn struct {
 	got    int       // bytes of the current message handed over so far
 	msgLen int
 	closed bool
+	// starts: for every frame of the peer's original stream, the number of bytes
+	// from its first byte to the end of the stream (frames injected later do not
+	// change these distances)
+	starts []int
+}
+
+// inject queues a frame of the peer at the next frame boundary of what the
+// connection has not pulled from the transport yet (the transport hands out a
+// few bytes per read, so this is the frame boundary right after the frame the
+// library is reading).
+func (x *c07Conn) inject(fr []byte) {
+	rem := len(x.p.In)
+	at := rem // default: after everything
+	for _, d := range x.starts {
+		if d <= rem && rem-d < at {
+			at = rem - d
+		}
+	}
+	in := make([]byte, 0, rem+len(fr))
+	in = append(in, x.p.In[:at]...)
+	in = append(in, fr...)
+	in = append(in, x.p.In[at:]...)
+	x.p.In = in
 }
 
 type c07Params struct {
 	K    connCfg
 	Prog []string // ops like "A.readAll"
+	Prop string   // "" = C07; "C05": the pool invariant reported under C05 (a pooled object owned twice is shared, unsynchronised, by two connections)
 }
 
 func (p c07Params) name() string { return strings.Join(p.Prog, ",") + "/" + p.K.String() }
@@ -68,8 +92,13 @@ func (st *c07State) check(x *c07Conn, op string, b []byte) {
 
 var c07Streams = map[string][]byte{}
 
+// c07MaxRead bounds the library's read-ahead so that frames injected later
+// (peer Close, protocol error) really arrive in the middle of a message.
+const c07MaxRead = 3
+
 func c07Open(st *c07State, k connCfg, tag byte, nmsgs int) *c07Conn {
 	x := &c07Conn{tag: tag, p: vpipe.New(), msgLen: c07MsgLen}
+	x.p.MaxRead = c07MaxRead
 	key := fmt.Sprintf("%s/%c/%d", k.String(), tag, nmsgs)
 	in, ok := c07Streams[key]
 	if !ok {
@@ -89,10 +118,26 @@ func c07Open(st *c07State, k connCfg, tag byte, nmsgs int) *c07Conn {
 		c07Streams[key] = in
 	}
 	x.p.In = append([]byte(nil), in...)
+	fs, _ := frame.ParseAll(in)
+	for _, f := range fs {
+		x.starts = append(x.starts, len(in)-f.Offset)
+	}
 	x.c = mkConn(x.p, k)
 	st.conns[tag] = x
 	return x
 }
+
+// c07Noise: 6000 bytes that do not compress (the deflate output is larger than
+// the 4096-byte write buffer).
+var c07Noise = func() []byte {
+	b := make([]byte, 6000)
+	x := uint32(12345)
+	for i := range b {
+		x = x*1664525 + 1013904223
+		b[i] = byte(x >> 24)
+	}
+	return b
+}()
 
 var c07Probe []byte
 
@@ -198,12 +243,20 @@ func c07Do(st *c07State, k connCfg, op string) {
 			// (the same reader object serves the connection's next message, so more
 			// bytes of this connection are legitimate; foreign bytes are not)
 		}
+	case "writeFail":
+		// the transport starts failing writes; a compressed message whose deflate
+		// output exceeds the write buffer fails in the middle of its final flush
+		if !k.Flate || x.closed {
+			return
+		}
+		x.p.FailWrite(vpipe.ErrTransport)
+		x.c.Write(bg, websocket.MessageBinary, c07Noise)
 	case "closeNow":
 		x.c.CloseNow()
 		x.closed = true
 	case "peerClose":
-		// a Close frame overtakes the rest of the data: queue it in front
-		x.p.In = append(peerClose(k, 1000, "bye"), x.p.In...)
+		// a Close frame takes the place of the peer's next frame
+		x.inject(peerClose(k, 1000, "bye"))
 		if x.r != nil {
 			readSome(1 << 20)
 			x.r = nil
@@ -219,7 +272,7 @@ func c07Do(st *c07State, k connCfg, op string) {
 		x.p.In = saved
 		x.r = nil
 	case "protoErr":
-		x.p.In = append(peerFrame(k, frame.Frame{Fin: true, Rsv2: true, Opcode: frame.OpText, Payload: []byte("x")}), x.p.In...)
+		x.inject(peerFrame(k, frame.Frame{Fin: true, Rsv2: true, Opcode: frame.OpText, Payload: []byte("x")}))
 		if x.r != nil {
 			readSome(1 << 20)
 			x.r = nil
@@ -266,6 +319,17 @@ func c07Setup(prm c07Params) func(c *fw.Ctx, name string) explore.Setup {
 			})
 			return func(complete bool) {
 				if !complete {
+					return
+				}
+				if prm.Prop != "" {
+					if w.Panic != "" {
+						violate(c, w, name, prm.Prop+"/panic/prog/"+prm.K.String(), w.Panic)
+						return
+					}
+					c.OutcomeStr(fmt.Sprintf("%s|dead=%v", name, w.Deadlock))
+					if msg := c07PoolInvariant(); msg != "" {
+						violate(c, w, name, prm.Prop+"/pool-double-put/prog/"+prm.K.String(), msg)
+					}
 					return
 				}
 				c07Oracle(c, w, name, "prog", prm.K, st)
@@ -543,6 +607,20 @@ func c07WSetup(prm c07WParams) func(c *fw.Ctx, name string) explore.Setup {
 	}
 }
 
+// c05PoolScenarios: write-side failures followed by the close of the
+// connection, judged by the pool invariant under C05.
+func c05PoolScenarios(tier string) []scenario {
+	var scs []scenario
+	progs := [][]string{{"A.writeFail"}, {"A.readPartial", "A.writeFail"}, {"A.writeFail", "A.peerClose"}, {"A.writeFail", "B.writeFail"}}
+	for _, k := range []connCfg{{Client: false, Flate: true}, {Client: true, Flate: true}, {Client: false, Flate: true, CNCT: true, SNCT: true}, {Client: true, Flate: true, CNCT: true, SNCT: true}} {
+		for _, pr := range progs {
+			prm := c07Params{K: k, Prog: pr, Prop: "C05"}
+			scs = append(scs, scenario{Name: "pool/" + prm.name(), Cfg: explore.Config{P: 0, Horizon: 60e9}, Setup: c07Setup(prm), Group: "pool/" + k.String()})
+		}
+	}
+	return scs
+}
+
 // c07CrossScenarios: the wconc history judged for another property.
 func c07CrossScenarios(prop string) func(tier string) []scenario {
 	return func(tier string) []scenario {
@@ -571,7 +649,7 @@ func c07Scenarios(tier string) []scenario {
 		depth = 4
 		pc.P = 2
 	}
-	acts := []string{"readAll", "readPartial", "readAgain", "closeNow", "peerClose", "ctxExpiry", "protoErr", "wsjson"}
+	acts := []string{"readAll", "readPartial", "readAgain", "closeNow", "peerClose", "ctxExpiry", "protoErr", "wsjson", "writeFail"}
 	var progs [][]string
 	var gen func(cur []string, opened string)
 	gen = func(cur []string, opened string) {
@@ -657,6 +735,10 @@ func init() {
 			Replay: replayFn(scs),
 		})
 	}
+	fw.Register(fw.Part{Prop: "C05", Name: "s.pool",
+		Units:  func(tier string) []fw.Unit { return scenarioUnits(c05PoolScenarios(tier)) },
+		Replay: replayFn(c05PoolScenarios),
+	})
 	fw.Register(fw.Part{Prop: "C07R", Name: "s.race",
 		Units:  func(tier string) []fw.Unit { return scenarioUnits(c07RaceScenarios(tier)) },
 		Replay: replayFn(c07RaceScenarios),
